@@ -222,6 +222,7 @@ static const char *fx_open(struct fx *fx, bool h265, uint8_t out_encaps)
     return fx_open_ex(fx, h265, out_encaps, false, &in);
 }
 
+static bool fx_flag_discontinuity;   /* the next buffer of fx_feed carries the discontinuity attribute */
 /* one input buffer made of nseg segments: seglen[0..nseg-1] sum to n */
 static const char *fx_feed(struct fx *fx, const uint8_t *p, const size_t *seglen, int nseg)
 {
@@ -237,6 +238,7 @@ static const char *fx_feed(struct fx *fx, const uint8_t *p, const size_t *seglen
     struct uref *uref = uref_alloc(fx->fm.uref_mgr);
     if (!uref) { ubuf_free(ubuf); return "uref alloc"; }
     uref_attach_ubuf(uref, ubuf);
+    if (fx_flag_discontinuity) uref_flow_set_discontinuity(uref);
     upipe_input(fx->framer, uref, NULL);
     return NULL;
 }
